@@ -51,7 +51,7 @@ ENGINE_STREAMS = {
     "C02": [("C01", 40, 1500, 40), ("midset", 30, 1000, 40), ("binds", 30, 1500, 40), ("raise", 40, 1000, 30), ("chain", 30, 1000, 30), ("mix", 40, 2000, 40), ("wide", 20, 400, 30), ("widekids", 20, 400, 90)],
     "C03": [("C01", 40, 1500, 40), ("faults", 30, 1000, 40), ("alwaysfaults", 40, 1000, 40), ("sentinel", 80, 2000, 40), ("sentinelfaults", 60, 1500, 40), ("mix", 40, 2000, 40), ("wide", 20, 400, 30), ("widekids", 20, 400, 90)],
     "C05": [("C01", 30, 1500, 40), ("faults", 30, 1500, 40), ("reject", 30, 1000, 40), ("wide", 20, 400, 30), ("sentinel", 60, 1500, 40), ("fanout", 30, 1000, 46), ("sentinelfaults", 40, 1500, 40), ("mix", 40, 2000, 40)],
-    "C06": [("C01", 40, 1500, 40), ("churn", 40, 1000, 60), ("wide", 20, 400, 30), ("widekids", 20, 400, 90), ("sentinel", 60, 1500, 40), ("inner", 30, 1000, 40), ("deadobs", 30, 1000, 40), ("reject", 30, 1000, 40), ("mix", 40, 2000, 40)],
+    "C06": [("C01", 40, 1500, 40), ("churn", 40, 1000, 60), ("wide", 20, 400, 30), ("widekids", 20, 400, 90), ("sentinel", 60, 1500, 40), ("inner", 30, 1000, 40), ("reject", 30, 1000, 40), ("mix", 40, 2000, 40)],
     "C07": [("faults", 50, 2000, 40), ("alwaysfaults", 50, 2000, 40), ("binds", 20, 1000, 40), ("reject", 30, 1000, 40), ("pardropfaults", 30, 1000, 30), ("mix", 40, 2000, 40)],
     "C08": [("binds", 60, 3000, 40), ("inner", 30, 1000, 40), ("bind2", 60, 2000, 40), ("deadobs", 40, 1500, 40), ("chain", 40, 1500, 30), ("mix", 40, 2000, 40)],
     "C10": [("C01", 30, 1500, 40), ("faults", 30, 1500, 40), ("inner", 40, 1500, 40), ("deadobs", 30, 1000, 40), ("reject", 30, 1000, 40), ("limit", 30, 1000, 40), ("mix", 40, 2000, 40)],
